@@ -39,6 +39,9 @@ def keyword_package(kws: list[str]) -> dict:
     f["kenumm.py"] = "from enum import Enum\n\n\nclass Holder(Enum):\n" + "\n".join(f"    {n} = {k}" for k, n in enumerate(names)) + "\n"
     f["kenum.py"] = "from enum import Enum\n\n\n" + "\n".join(f"class {n}(Enum):\n    A = 1\n" for n in names)
     f["ktvar.py"] = "from typing import TypeVar\n\n" + "\n".join(f'{n} = TypeVar("{n}")\n\n\ndef tv{k}(a: {n}) -> {n}:\n    ...\n' for k, n in enumerate(pub))
+    f["ktvarcls.py"] = "from typing import Generic, TypeVar\n\n" + "\n".join(
+        f'{n} = TypeVar("{n}")\n\n\nclass G{k}(Generic[{n}]):\n    def m(self, a: {n}) -> {n}:\n        ...\n\n\nclass C{k}:\n    def __init__(self, a: {n}):\n        self.a = a\n'
+        for k, n in enumerate(pub[:12]))
     f["kuse.py"] = "from kwpk.kcls import " + ", ".join(names) + "\n\n" + "\n".join(
         f"def use{k}(a: {n}) -> list[{n}]:\n    ...\n\n\nclass Sub{k}({n}):\n    pass\n" for k, n in enumerate(names))
     # names whose camelCase form would be empty or start with a digit
